@@ -234,6 +234,24 @@ type c17DigestCase struct {
 	Key    refcose.KeyMat `json:"key"` // Alg may differ from the curve's natural algorithm (cross use is allowed)
 	Msg    rc.Hex         `json:"msg"`
 	Opaque bool           `json:"opaque,omitempty"` // the signer gets the key only as an opaque crypto.Signer (HSM / KMS style)
+	// Reentrant: while the signer waits for entropy (after it has hashed the message, before the key
+	// operation) the same signer object signs another message: the stand-in for a second goroutine
+	Reentrant bool `json:"reentrant,omitempty"`
+}
+
+// hookReader runs hook once, on its first Read.
+type hookReader struct {
+	inner io.Reader
+	hook  func()
+	done  bool
+}
+
+func (r *hookReader) Read(p []byte) (int, error) {
+	if !r.done {
+		r.done = true
+		r.hook()
+	}
+	return r.inner.Read(p)
 }
 
 // opaqueSigner hides the concrete key type behind crypto.Signer.
@@ -265,11 +283,18 @@ func checkC17Digest(c c17DigestCase) error {
 	h := refcose.HashFor(c.Key.Alg)
 	digest := refcose.Digest(h, c.Msg)
 	rnd := refcose.NewEntropy(c.Msg)
-	s1, err := sg.Sign(rnd, c.Msg)
+	var rnd1, rnd2 io.Reader = rnd, rnd
+	if c.Reentrant {
+		other := append([]byte("another message signed by the same signer object: "), c.Msg...)
+		rnd1 = &hookReader{inner: rnd, hook: func() { sg.Sign(refcose.NewEntropy(other), other) }}
+		rnd2 = &hookReader{inner: rnd, hook: func() { ds.SignDigest(refcose.NewEntropy(other), refcose.Digest(h, other)) }}
+		stats.Class("digest-equivalence/signer-re-entered-while-waiting-for-entropy")
+	}
+	s1, err := sg.Sign(rnd1, c.Msg)
 	if err != nil {
 		return finding("sign-fails", "%v", err)
 	}
-	s2, err := ds.SignDigest(rnd, digest)
+	s2, err := ds.SignDigest(rnd2, digest)
 	if err != nil {
 		return finding("signdigest-fails", "%v", err)
 	}
@@ -324,7 +349,7 @@ func TestC17_Digest(t *testing.T) {
 		if km.Family() == "ec" && rapid.IntRange(0, 3).Draw(rt, "cross-curve") == 0 {
 			km.Curve = rapid.SampledFrom([]int{256, 384, 521}).Draw(rt, "curve")
 		}
-		c := c17DigestCase{Key: km, Msg: gen.Blob(rt, "msg", gen.BoundaryLen(rt, "msglen", false)), Opaque: rapid.IntRange(0, 2).Draw(rt, "opaque") == 0}
+		c := c17DigestCase{Key: km, Msg: gen.Blob(rt, "msg", gen.BoundaryLen(rt, "msglen", false)), Opaque: rapid.IntRange(0, 2).Draw(rt, "opaque") == 0, Reentrant: rapid.IntRange(0, 2).Draw(rt, "reentrant") == 0}
 		if c.Msg == nil {
 			c.Msg = rc.Hex{}
 		}
